@@ -56,7 +56,10 @@ fn vk_da_simple<'a>(action: &'a Action<'a, u8>) -> (Layout<'a, 3, 2, u8>, KCoord
     let mut l = vk_da_layout(true);
     let t0 = l.oneshot.timeout;
     let y: u16 = kani::any();
-    kani::assume(y < 2);
+    // (0,0) is TRIGGER_TAPHOLD_COORD: the reserved coordinate at which chords v2 injects fake events; a no-op there
+    // deliberately does not count as the key following a one-shot.  No real key lives at (0,0) (defsrc index 0 is
+    // forced to no-op by the parser), so the kernels use column 1 only.
+    kani::assume(y == 1);
     let coord: KCoord = (0, y);
     let delay: u16 = kani::any();
     let ev = l.do_action(action, coord, delay, false, &mut std::iter::empty::<u16>());
@@ -69,7 +72,7 @@ fn vk_da_simple<'a>(action: &'a Action<'a, u8>) -> (Layout<'a, 3, 2, u8>, KCoord
 // @harness name=da_keycode prop=C04,C06 tier=quick timeout=1500
 // @encodes Layout::do_action (KeyCode arm), OneShotState::handle_press, LastPressTracker::update_coord, History::push_front
 // @inst Layout<3, 2, u8>
-// @bounds constant action KeyCode(A); pre-state: one plain key held, one active one-shot key with symbolic end config, timeout and rapid-event delay; symbolic coordinate (2 columns) and delay
+// @bounds constant action KeyCode(A); pre-state: one plain key held, one active one-shot key with symbolic end config, timeout and rapid-event delay; coordinate (0,1), symbolic delay
 // @assumes none beyond the bounds
 // @spec exactly one key state {A, at the pressed coordinate, no flags} is added after the existing ones; no custom event; the press is remembered as the last press; the active one-shot is notified (press variants: timeout drops to the rapid-event delay; release variants: key recorded)
 #[kani::proof]
@@ -385,7 +388,7 @@ static VK_DA_HT_CFG50: HoldTapAction<'static, u8> = HoldTapAction {
 };
 static VK_DA_HT50: Action<'static, u8> = Action::HoldTap(&VK_DA_HT_CFG50);
 
-fn vk_da_holdtap(interval: u16) {
+fn vk_da_holdtap(interval: u16) -> (bool, bool) {
     let cfg_v: HoldTapAction<'_, u8> = HoldTapAction {
         timeout: 200,
         hold: Action::KeyCode(KeyCode::LCtrl),
@@ -435,9 +438,9 @@ fn vk_da_holdtap(interval: u16) {
         assert!(l.last_press_tracker.tap_hold_timeout == cfg.tap_hold_interval);
     }
     assert!(l.last_press_tracker.coord == coord);
-    kani::cover!(repress_window_open, "tap-then-hold repress");
-    kani::cover!(!repress_window_open && l.quick_tap_hold_timeout, "quick timeout accounting");
+    let quick = l.quick_tap_hold_timeout;
     core::mem::forget(l);
+    (repress_window_open, quick)
 }
 
 // @harness name=da_holdtap_interval prop=C05 tier=quick timeout=1800
@@ -449,7 +452,9 @@ fn vk_da_holdtap(interval: u16) {
 #[kani::proof]
 #[kani::unwind(4)]
 fn da_holdtap_interval() {
-    vk_da_holdtap(50);
+    let (repress, quick) = vk_da_holdtap(50);
+    kani::cover!(repress, "tap-then-hold repress");
+    kani::cover!(!repress && quick, "quick timeout accounting");
 }
 
 // @harness name=da_holdtap_nointerval prop=C05 tier=quick timeout=1800
@@ -461,7 +466,9 @@ fn da_holdtap_interval() {
 #[kani::proof]
 #[kani::unwind(4)]
 fn da_holdtap_nointerval() {
-    vk_da_holdtap(0);
+    let (repress, quick) = vk_da_holdtap(0);
+    assert!(!repress);
+    kani::cover!(quick, "quick timeout accounting");
 }
 
 fn vk_da_waiting(coord: KCoord) -> WaitingState<'static, u8> {
